@@ -275,6 +275,12 @@ class Harness:
             self.decision[(side, n)] = "pending"
             self.late.append((side, n, cmd, fill, d))
             self.flags["late"] += 1
+            if sim.draw_bool(0.25, "called_but_pending"):
+                # hand out a Deferred that has already been called back but whose callback chain waits on `d` (no result until `d` fires)
+                sim.probe("responder_returned_called_but_pending_deferred")
+                _outer = defer.succeed(None)
+                _outer.addCallback(lambda _ignored, d=d: d)
+                return _outer
             return d
         self.decision[(side, n)] = kind
         if kind != "ok":
